@@ -130,34 +130,75 @@ Fixpoint pmem (x : positive) (xs : list positive) : bool :=
 
 Module PM := PositiveMap.
 
+(* finite label sets with logarithmic membership: site -> (cell+1) -> (), site -> tag -> (), function -> () *)
+Record lset := { ls_obj : PM.t (PM.t unit); ls_box : PM.t (PM.t unit); ls_fun : PM.t unit }.
+
+Definition ls_empty : lset := {| ls_obj := PM.empty _; ls_box := PM.empty _; ls_fun := PM.empty _ |}.
+
+Definition mem1 (m : PM.t unit) (a : positive) : bool :=
+  match PM.find a m with Some _ => true | None => false end.
+
+Definition mem2 (m : PM.t (PM.t unit)) (a b : positive) : bool :=
+  match PM.find a m with Some m' => mem1 m' b | None => false end.
+
+Definition add2 (m : PM.t (PM.t unit)) (a b : positive) : PM.t (PM.t unit) :=
+  PM.add a (PM.add b tt (match PM.find a m with Some m' => m' | None => PM.empty _ end)) m.
+
+Definition ls_mem (l : label) (s : lset) : bool :=
+  match l with
+  | LObj a o => mem2 (ls_obj s) a (N.succ_pos o)
+  | LBox a t => mem2 (ls_box s) a t
+  | LFun f => mem1 (ls_fun s) f
+  end.
+
+Definition ls_add (l : label) (s : lset) : lset :=
+  match l with
+  | LObj a o => {| ls_obj := add2 (ls_obj s) a (N.succ_pos o); ls_box := ls_box s; ls_fun := ls_fun s |}
+  | LBox a t => {| ls_obj := ls_obj s; ls_box := add2 (ls_box s) a t; ls_fun := ls_fun s |}
+  | LFun f => {| ls_obj := ls_obj s; ls_box := ls_box s; ls_fun := PM.add f tt (ls_fun s) |}
+  end.
+
+Definition keys2 (m : PM.t (PM.t unit)) : list (positive * positive) :=
+  flat_map (fun am => map (fun bu => (fst am, fst bu)) (PM.elements (snd am))) (PM.elements m).
+
+Definition ls_elements (s : lset) : list label :=
+  map (fun ab => LObj (fst ab) (Pos.pred_N (snd ab))) (keys2 (ls_obj s)) ++
+  map (fun ab => LBox (fst ab) (snd ab)) (keys2 (ls_box s)) ++
+  map (fun fu => LFun (fst fu)) (PM.elements (ls_fun s)).
+
 Record fsol := {
-  m_reg : PM.t (PM.t (list label));
-  m_cell : PM.t (PM.t (list label));
-  m_ret : PM.t (list label);
+  m_reg : PM.t (PM.t lset);
+  m_cell : PM.t (PM.t lset);
+  m_ret : PM.t lset;
   m_reach : PM.t unit;
   m_edge : PM.t (list fname) }.
 
 Definition empty_fsol : fsol :=
   {| m_reg := PM.empty _; m_cell := PM.empty _; m_ret := PM.empty _; m_reach := PM.empty _; m_edge := PM.empty _ |}.
 
-Definition get2 (m : PM.t (PM.t (list label))) (a b : positive) : list label :=
+Definition get2 (m : PM.t (PM.t lset)) (a b : positive) : lset :=
   match PM.find a m with
-  | Some m' => match PM.find b m' with Some l => l | None => [] end
-  | None => []
+  | Some m' => match PM.find b m' with Some l => l | None => ls_empty end
+  | None => ls_empty
   end.
+
+Definition gets (m : PM.t lset) (a : positive) : lset :=
+  match PM.find a m with Some l => l | None => ls_empty end.
 
 Definition get1 {A} (m : PM.t (list A)) (a : positive) : list A :=
   match PM.find a m with Some l => l | None => [] end.
 
-Definition set2 (m : PM.t (PM.t (list label))) (a b : positive) (ls : list label) : PM.t (PM.t (list label)) :=
+Definition set2 (m : PM.t (PM.t lset)) (a b : positive) (ls : lset) : PM.t (PM.t lset) :=
   PM.add a (PM.add b ls (match PM.find a m with Some m' => m' | None => PM.empty _ end)) m.
 
-Definition fpts (F : fsol) (n : node) : list label :=
+Definition fset (F : fsol) (n : node) : lset :=
   match n with
   | NReg f r => get2 (m_reg F) f r
   | NCell s off => get2 (m_cell F) s (N.succ_pos off)
-  | NRet f => get1 (m_ret F) f
+  | NRet f => gets (m_ret F) f
   end.
+
+Definition fpts (F : fsol) (n : node) : list label := ls_elements (fset F n).
 
 Definition freach (F : fsol) (f : fname) : bool :=
   match PM.find f (m_reach F) with Some _ => true | None => false end.
@@ -166,7 +207,7 @@ Definition fedges (F : fsol) (cs : site) : list fname := get1 (m_edge F) cs.
 
 Definition holdsb (F : fsol) (x : fact) : bool :=
   match x with
-  | FPts n l => lmem l (fpts F n)
+  | FPts n l => ls_mem l (fset F n)
   | FReach f => freach F f
   | FEdge cs g => pmem g (fedges F cs)
   end.
@@ -175,13 +216,13 @@ Definition add_fact (x : fact) (F : fsol) : fsol :=
   if holdsb F x then F else
   match x with
   | FPts (NReg f r) l =>
-      {| m_reg := set2 (m_reg F) f r (l :: get2 (m_reg F) f r); m_cell := m_cell F; m_ret := m_ret F;
+      {| m_reg := set2 (m_reg F) f r (ls_add l (get2 (m_reg F) f r)); m_cell := m_cell F; m_ret := m_ret F;
          m_reach := m_reach F; m_edge := m_edge F |}
   | FPts (NCell s off) l =>
-      {| m_reg := m_reg F; m_cell := set2 (m_cell F) s (N.succ_pos off) (l :: get2 (m_cell F) s (N.succ_pos off));
+      {| m_reg := m_reg F; m_cell := set2 (m_cell F) s (N.succ_pos off) (ls_add l (get2 (m_cell F) s (N.succ_pos off)));
          m_ret := m_ret F; m_reach := m_reach F; m_edge := m_edge F |}
   | FPts (NRet f) l =>
-      {| m_reg := m_reg F; m_cell := m_cell F; m_ret := PM.add f (l :: get1 (m_ret F) f) (m_ret F);
+      {| m_reg := m_reg F; m_cell := m_cell F; m_ret := PM.add f (ls_add l (gets (m_ret F) f)) (m_ret F);
          m_reach := m_reach F; m_edge := m_edge F |}
   | FReach f =>
       {| m_reg := m_reg F; m_cell := m_cell F; m_ret := m_ret F; m_reach := PM.add f tt (m_reach F); m_edge := m_edge F |}
@@ -283,15 +324,34 @@ Definition conseq (P : prog) (F : fsol) : list fact :=
 (* verified validator: F is closed under the constraint system *)
 Definition check_closed (P : prog) (F : fsol) : bool := forallb (holdsb F) (conseq P F).
 
-(* naive saturating solver *)
+(* saturating solver: chaotic iteration, one instruction at a time (facts derived from an instruction are added before
+   the next instruction is looked at), repeated until a whole round adds nothing; the result is returned as [Done] only
+   after the validator accepted it *)
 Inductive result := Done (F : fsol) | OutOfFuel (F : fsol).
+
+Definition add_all (xs : list fact) (Fc : fsol * bool) : fsol * bool :=
+  fold_right (fun x Fc => if holdsb (fst Fc) x then Fc else (add_fact x (fst Fc), true)) Fc xs.
+
+Definition step_instr (P : prog) (f : fname) (Fc : fsol * bool) (i : instr) : fsol * bool :=
+  add_all (instr_facts P (fst Fc) f i) Fc.
+
+Definition step_block (P : prog) (f : fname) (Fc : fsol * bool) (blk : block) : fsol * bool :=
+  let Fc1 := fold_left (step_instr P f) (binstrs blk) Fc in
+  add_all (term_facts (fst Fc1) f (bterm blk)) Fc1.
+
+Definition step_func (P : prog) (Fc : fsol * bool) (ffn : fname * func) : fsol * bool :=
+  if freach (fst Fc) (fst ffn) then fold_left (step_block P (fst ffn)) (fblocks (snd ffn)) Fc else Fc.
+
+Definition round (P : prog) (F : fsol) : fsol * bool :=
+  fold_left (step_func P) (funcs P) (add_all (map FReach (roots P)) (F, false)).
 
 Fixpoint solve (fuel : nat) (P : prog) (F : fsol) : result :=
   match fuel with
   | O => OutOfFuel F
   | S k =>
-      let C := conseq P F in
-      if forallb (holdsb F) C then Done F else solve k P (fold_right add_fact F C)
+      let Fc := round P F in
+      if snd Fc then solve k P (fst Fc)
+      else if check_closed P (fst Fc) then Done (fst Fc) else OutOfFuel (fst Fc)
   end.
 
 Definition analyze (fuel : nat) (P : prog) : result := solve fuel P empty_fsol.
